@@ -400,7 +400,8 @@ def field_of_pattern_binding(root, e, field):
 def guard_conditions(root, node):
     """Conditions known to hold when `node` executes, as a list of (polarity, condition expression):
     enclosing `if c` (then: +c, else: −c), and *preceding guard clauses* in enclosing blocks — `if c { diverge }` gives −c.
-    Pattern tests (if-let / match arms / let-else) are reported as ('pat', (pattern, scrutinee))."""
+    Pattern tests (if-let / match arms / let-else) are reported as ('pat', (pattern, scrutinee)); an if-let guard clause
+    whose body diverges is reported as ('notpat', (pattern, scrutinee)): afterwards the scrutinee did not match."""
     out = []
     p = path_to(root, node)
     if p is None:
@@ -435,6 +436,9 @@ def guard_conditions(root, node):
                     c = peel(e_["cond"])
                     if c.get("k") != "LetExpr":
                         out.append((False, e_["cond"]))
+                    else:
+                        # `if let P = e { return / continue / panic }`: afterwards e did NOT match P
+                        out.append(("notpat", (c["pat"], c["init"])))
                 if st.get("k") == "Let" and "else" in st and "init" in st:
                     out.append(("pat", (st["pat"], st["init"])))
                 # a preceding call to a helper whose body was attached (vlib/canon.py): the guard clauses at the top level of
